@@ -134,7 +134,21 @@ def positions():
         return (f"INSERT INTO {t} SELECT * FROM src1; INSERT INTO fin1 SELECT {t}.* FROM {t}",
                 [("path", ["<default>.src1.*", ref + ".*", "<default>.fin1.*"]), ("intermediate_table", ref)])
 
-    extra = [("star_qualifier", p_star_qualifier, True), ("partial_qualifier", p_partial_qualifier, True),
+    def p_session_star_chain(sp, n):
+        # with a provider in use: the columns a statement gives a table are remembered under the table's name and found again by a later SELECT *
+        t, ref = table_name(["dbx", "scm", "tabx"][3 - n:], sp)
+        return (f"INSERT INTO {t} SELECT c1, c2 AS c3 FROM src1; INSERT INTO fin1 SELECT * FROM {t}",
+                [("metadata", {"zz.other": ["q"]}), ("path", ["<default>.src1.c1", ref + ".c1", "<default>.fin1.c1"]),
+                 ("path", ["<default>.src1.c2", ref + ".c3", "<default>.fin1.c3"]), ("intermediate_table", ref)])
+
+    def p_session_positional_chain(sp, n):
+        # ... and by a later INSERT without column list (positions named by the remembered columns)
+        t, ref = table_name(["dbx", "scm", "tabx"][3 - n:], sp)
+        return (f"CREATE TABLE {t} AS SELECT c1, c2 AS c3 FROM src1; INSERT INTO {t} SELECT x1, x2 FROM src2",
+                [("metadata", {"zz.other": ["q"]}), ("pair", ("<default>.src2.x1", ref + ".c1")), ("pair", ("<default>.src2.x2", ref + ".c3"))])
+
+    extra = [("session_star_chain", p_session_star_chain, True), ("session_positional_chain", p_session_positional_chain, True),
+             ("star_qualifier", p_star_qualifier, True), ("partial_qualifier", p_partial_qualifier, True),
              ("partial_star_qualifier", p_partial_star_qualifier, True), ("star_chain_two_statements", p_star_chain, True),
              ("cte_name_as_qualifier", p_cte_qualifier, False), ("derived_alias_as_qualifier", p_derived_qualifier, False),
              ("table_name_as_qualifier_across_statements", p_table_name_qualifier_chain, True)]
@@ -143,8 +157,9 @@ def positions():
 
 
 def evaluate(sql, dialect, checks):
+    md = next((e for w, e in checks if w == "metadata"), None)
     try:
-        lr = observe.runner_of(sql, dialect)
+        lr = observe.runner_of(sql, dialect, metadata=md)
         S, T, I = [str(t) for t in lr.source_tables], [str(t) for t in lr.target_tables], [str(t) for t in lr.intermediate_tables]
         paths = [[str(c) for c in p] for p in lr.get_column_lineage()]
     except Exception as e:  # noqa
